@@ -460,8 +460,8 @@ Proof.
   destruct res as [k|]; [inversion H; subst; exact Hf|].
   match type of H with (let '(r1, fr) := fq_fill ffuel ?R in _) = _ => set (r0 := R) in * end.
   destruct (fq_fill ffuel r0) as [r1 fr] eqn:E1.
-  assert (r1 = r') by (destruct fr; inversion H; reflexivity). subst r1.
-  apply (fq_fill_len _ _ _ _ E1). unfold r0. fq_simpl. cbn [length]. lia.
+  assert (Hf1 : QBufFits r1) by (apply (fq_fill_len _ _ _ _ E1); unfold r0; fq_simpl; cbn [length]; lia).
+  destruct fr; inversion H; subst; exact Hf1.
 Qed.
 
 (** ** the theorems (FASTQ) *)
